@@ -965,22 +965,11 @@ def getBinOnIndex : List Nat → PyV → ExBin
 /-- `get_example_bin(struct)` for a histogram of dimension `dim`: `get_bin_on_index([0] * struct.dim, struct.bins)` -/
 def exampleOfHist (dim : Nat) (bins : PyV) : ExBin := getBinOnIndex (List.replicate dim 0) bins
 
-/-- `get_example_bin(struct)` for an array of bins: `while isinstance(bins, list): bins = bins[0]`
-(`fuel`: an upper bound of the nesting depth; `exampleOfArray` gives enough) -/
-def exampleOfArrayFuel : Nat → PyV → ExBin
-  | _, .atom k => .ok (.atom k)
-  | _, .list [] => .indexError
-  | 0, .list (_ :: _) => .notAList
-  | fuel + 1, .list (x :: _) => exampleOfArrayFuel fuel x
-
-/-- nesting depth of lists along the first items -/
-def PyV.depth0 : Nat → PyV → Nat
-  | 0, _ => 0
-  | _ + 1, .atom _ => 0
-  | _ + 1, .list [] => 1
-  | n + 1, .list (x :: _) => 1 + PyV.depth0 n x
-
-def exampleOfArray (v : PyV) : ExBin := exampleOfArrayFuel 64 v
+/-- `get_example_bin(struct)` for an array of bins: `while isinstance(bins, list): bins = bins[0]` -/
+def exampleOfArray : PyV → ExBin
+  | .atom k => .ok (.atom k)
+  | .list [] => .indexError
+  | .list (x :: _) => exampleOfArray x
 
 /-- the loop body of `IterateBins.run` with the example bin computed on the nested lists (lines 97-104:
 `data00 = get_data(get_example_bin(data)); if not self._select_bins(data00): yield val; continue`).  The rest of the
